@@ -187,6 +187,28 @@ func mkInsert(m *mModel, table string, n int, big bool) stmt {
 		}}
 }
 
+// mkInsertEmpty is a single-row INSERT whose varchar values are empty strings.
+func mkInsertEmpty(m *mModel, table string) (stmt, bool) {
+	t := m.Tables[table]
+	r := seqRow(t, t.Inserted+1, false)
+	found := false
+	lits := make([]string, len(r))
+	for j, v := range r {
+		if _, isStr := v.(string); isStr {
+			r[j], found = "", true
+		}
+		lits[j] = sqlLit(r[j])
+	}
+	return stmt{SQL: fmt.Sprintf("INSERT INTO %s VALUES (%s)", table, strings.Join(lits, ", ")), Kind: "insert", Table: table, N: 1,
+		apply: func(m *mModel, prefix int) {
+			t := m.Tables[table]
+			if prefix != 0 {
+				t.Rows = append(t.Rows, &mRow{Vals: append([]any{}, r...)})
+			}
+			t.Inserted++
+		}}, found
+}
+
 // mkInsertTooLarge is a single-row INSERT whose varchar value pushes the row over the 400-byte limit.
 func mkInsertTooLarge(m *mModel, table string) (stmt, bool) {
 	t := m.Tables[table]
@@ -889,6 +911,7 @@ type alphaOpt struct {
 	NonePreds     bool     // include statements matching no row
 	FewDeletes    bool     // only DELETE upper half / DELETE all (not "= last row")
 	NullInsert    bool     // INSERT naming only the first column (the others are NULL)
+	EmptyInsert   bool     // a single-row INSERT whose varchar values are empty strings (not NULL)
 	FailingInsert bool     // a single-row INSERT over the size limit (refused; may use up a row id)
 	OnlyCreate    []string // tables that may be created but get no other statements (row ids and LSNs consumed without a log record)
 }
@@ -910,6 +933,11 @@ func (w *world) alphabet(o alphaOpt) []stmt {
 		}
 		if o.NullInsert {
 			out = append(out, mkInsertNull(m, tn))
+		}
+		if o.EmptyInsert {
+			if st, ok := mkInsertEmpty(m, tn); ok {
+				out = append(out, st)
+			}
 		}
 		if o.FailingInsert {
 			if st, ok := mkInsertTooLarge(m, tn); ok {
